@@ -128,13 +128,13 @@ PROPERTIES.update({
               'match and a flag-subset test whose operands are sets on every construction path.',
               'tiling/coverage for all inputs; "contextual succeeds whenever basic does".',
               'sort-key normalisation against the documented order; def-use of the ordered list; guard extraction'),
-    'C08': _p(['R-EXC-DISCIPLINE', 'R-POS-AFFINITY', 'R-TOKEN-NONE-TEST', 'R-SPLIT-TOTAL', 'R-ACCEPTS-PURE', 'R-SORT-TOTAL', 'R-IDENTITY-EQ', 'R-INDENT-PAIRING', 'R-PARAM-FORWARD', 'R-ONERROR-SKIP', 'R-CLASS-MUTABLE', 'R-TERM-NAME-PROTOCOL', 'R-FORMAT-ARITY'],
+    'C08': _p(['R-EXC-DISCIPLINE', 'R-POS-AFFINITY', 'R-TOKEN-NONE-TEST', 'R-SPLIT-TOTAL', 'R-ACCEPTS-PURE', 'R-SORT-TOTAL', 'R-IDENTITY-EQ', 'R-INDENT-PAIRING', 'R-PARAM-FORWARD', 'R-ONERROR-SKIP', 'R-CLASS-MUTABLE', 'R-TERM-NAME-PROTOCOL', 'R-FORMAT-ARITY', 'R-SCAN-BUFFER'],
               'every raise reachable from parse() is an UnexpectedInput or a tabled configuration/internal/documented class; no broad handler '
               'swallows; EOFError of next_token is caught by every caller; the offending token / current position is what the error carries; '
               '$END borrows the last token whenever there is one (identity test, not truthiness); no partial split index on the input path.',
               'earliest position; exactness of expected/allowed/accepts; implicit exceptions.',
               'call-graph reachability + raise-site classification table; Engler-style inconsistent-null-test rule'),
-    'C10': _p(['R-SHARED-EFFECTS', 'R-PERCALL-ESCAPE', 'R-COMPILE-COPIES', 'R-POSTLEX-RESET', 'R-PARAM-FORWARD', 'R-CLASS-MUTABLE', 'R-FORMAT-ARITY'],
+    'C10': _p(['R-SHARED-EFFECTS', 'R-PERCALL-ESCAPE', 'R-COMPILE-COPIES', 'R-POSTLEX-RESET', 'R-PARAM-FORWARD', 'R-CLASS-MUTABLE', 'R-FORMAT-ARITY', 'R-PRIO-SIBLINGS'],
               'the complete list of writes reachable from parse/lex/scan/parse_interactive and the interactive API, each classified by an '
               'ownership dataflow as per-call or shared; a shared write is accepted only as an atomic idempotent lazy publication; post-lexer '
               'state is reset (to its initial values) per stream.',
@@ -152,7 +152,7 @@ PROPERTIES.update({
               'instance restored; the fall-back rewrites the file in the reader\'s record order.',
               'value-level equality of the loaded parser (C11); atomicity of the write beyond what the read-side fallback makes harmless.',
               'def-use/taint inside Lark.__init__, CFG dominance and must-pass-through, writer/reader agreement'),
-    'C13': _p(['R-FORK-ALIAS', 'R-SHALLOW-FORK', 'R-TERM-NAME-PROTOCOL', 'R-ACCEPTS-PURE', 'R-COPY-COVERS', 'R-ONERROR-SKIP', 'R-PARAM-FORWARD', 'R-CLASS-MUTABLE', 'R-FORMAT-ARITY'],
+    'C13': _p(['R-FORK-ALIAS', 'R-SHALLOW-FORK', 'R-TERM-NAME-PROTOCOL', 'R-ACCEPTS-PURE', 'R-COPY-COVERS', 'R-ONERROR-SKIP', 'R-PARAM-FORWARD', 'R-CLASS-MUTABLE', 'R-FORMAT-ARITY', 'R-EXC-DISCIPLINE'],
               'copies made by the fork API share no state that feeding or lexing writes and are coherent (one copied lexer thread in both '
               'places); shallow forks are only fed with tree-building callbacks off; the terminal/non-terminal classification used by '
               'accepts() and the expected set recognises every name the loader can produce.',
@@ -164,7 +164,7 @@ PROPERTIES.update({
               'callbacks, candidates are searched among non-ignored terminals, the exploratory window carries the full text\'s line state.',
               'leftmost-longest, no-miss, equality with parse() of the substring.',
               'loop-progress rule on the CFG (must-pass-through an accepted position update), def-use of the yielded range'),
-    'C15': _p(['R-REPR-PARAM', 'R-WINDOW-BOUNDS', 'R-POS-AFFINITY', 'R-SPLIT-ARMS', 'R-COPY-COVERS'],
+    'C15': _p(['R-REPR-PARAM', 'R-WINDOW-BOUNDS', 'R-POS-AFFINITY', 'R-SPLIT-ARMS', 'R-COPY-COVERS', 'R-LOAD-REAPPLY'],
               'no representation-specific constant touches input text outside an isinstance(bytes) split; every regex call on a window passes '
               'pos and the window end; loops are bounded by the end; counters start from the window. One unrepaired known finding: the start '
               'side (look-behind, ^, \\b see the buffer before the window).',
@@ -189,7 +189,7 @@ PROPERTIES.update({
 })
 
 PROPERTIES.update({
-    'C17': _p(['R-MANGLE-PROTOCOL', 'R-CONFIG-FORWARD', 'R-PREFIX-PROTOCOL', 'R-PARAM-FORWARD', 'R-FORMAT-ARITY'],
+    'C17': _p(['R-MANGLE-PROTOCOL', 'R-CONFIG-FORWARD', 'R-PREFIX-PROTOCOL', 'R-PARAM-FORWARD', 'R-FORMAT-ARITY', 'R-CACHE', 'R-NODE-NAME'],
               'the protocol every imported definition goes through: the mangled spelling keeps a leading underscore in front and prefixes the '
               'rest, aliases replace instead of prefix, an enclosing import\'s mangle is applied on top; a definition\'s name, each template '
               'parameter and every Symbol of (a copy of) its tree are mangled; renaming keeps a symbol\'s class and filter_out; every defining '
@@ -203,7 +203,7 @@ PROPERTIES.update({
 })
 
 PROPERTIES.update({
-    'C09': _p(['R-REPEAT-COUNT', 'R-PREFIX-PROTOCOL', 'R-IDENTITY-EQ'],
+    'C09': _p(['R-REPEAT-COUNT', 'R-PREFIX-PROTOCOL', 'R-IDENTITY-EQ', 'R-EARLEY-PROTOCOL'],
               'the COUNT ALGEBRA of the repetition compiler, by abstract interpretation of the tree-building code (counts as integer '
               'intervals with polynomial end points, identities decided by normal form): _add_repeat_rule(a, b, target=T) builds a rule '
               'matching exactly a*T + b; _add_repeat_opt_rule builds one matching 0 .. a*T + b - 1 given an optional part matching 0 .. T - 1; '
@@ -214,7 +214,9 @@ PROPERTIES.update({
               'in the right places and rejects only invalid bounds; cache keys name everything the helper tree depends on and the two '
               'helpers\' keys cannot coincide; _add_rule files the tree under the name it returns with the rule\'s options; inside terminals '
               'the inner regexp is grouped and followed by the operator, {n} or {n,m}; helper rule names are inlined ("__" prefix); trees are not '
-              'compared by identity (`[x] * n` repeats one object).',
+              'compared by identity (`[x] * n` repeats one object); equal alternatives produced by multiplying out ? and ~n..m are merged; '
+              'small_factors admits 0 and 1; NULLABLE is computed to a fixpoint (a large x~0..m is nullable only through helper rules filed after '
+              'the user rules -- clause e9 of R-EARLEY-PROTOCOL, its other clauses do not count here).',
               'that the parsing engines match what the compiled rules denote (C01/C02); semantics of regex quantifiers (trusted: re); '
               'terminals that can match the empty string; order of children beyond the helper names being inlined.',
               'abstract interpretation over a count domain (intervals with polynomial bounds), path enumeration of the compiler functions, '
@@ -315,4 +317,18 @@ _EXTRA_DECIDES = {
     'C20': 'Also: success marks are consumed by the node they were set for; id-keyed tables are renewed per walk; the scan buffer is read-only.',
 }
 for _prop, _txt in _EXTRA_DECIDES.items():
+    PROPERTIES[_prop]['level_text'] = PROPERTIES[_prop]['level_text'].replace(' DOES NOT DECIDE:', ' ' + _txt + ' DOES NOT DECIDE:')
+
+# clauses of rules that mainly serve other properties, shown under these as well (the finding carries the property; the rule's other
+# clauses do not count here)
+_CROSS_CLAUSES = {
+    'C08': 'Cross-listed clause: the consumer of the carried-solutions table empties it (otherwise the dynamic Earley scanner never finds '
+           '"nothing left" and never rejects).',
+    'C10': 'Cross-listed clause: every compiled Rule gets its own RuleOptions object (a second compile must not see what the first one negated).',
+    'C13': 'Cross-listed clause: resume_parse hands the lexer state\'s last token to parse_from_state.',
+    'C15': 'Cross-listed clause: use_bytes given when loading is read on the load path.',
+    'C17': 'Cross-listed clauses: verify_used_files compares every recorded import with its digest; both tree builders name a template '
+           'instance by its template source.',
+}
+for _prop, _txt in _CROSS_CLAUSES.items():
     PROPERTIES[_prop]['level_text'] = PROPERTIES[_prop]['level_text'].replace(' DOES NOT DECIDE:', ' ' + _txt + ' DOES NOT DECIDE:')
